@@ -2,6 +2,7 @@ import CV.Proofs.HttpResp
 import CV.Proofs.HttpHead
 import CV.Proofs.HttpSeq
 import CV.Proofs.HttpRespPath
+import CV.Proofs.HttpRespFail
 /-
 C15 - Every HTTP response is a well-formed, self-delimiting message with exact body.
 
@@ -303,5 +304,85 @@ example : HttpEv.success .none ∉ [HttpEv.success (.triple .other), .exception 
   decide
 -- without the handled flag the same error would be answered again (what the `fix:` commit repaired)
 example : runEvents false [.success (.triple .other), .exception (.nested .other)] = [.error 500] := by decide
+
+
+/-! ## Body iterators that raise, and handlers that return a flag
+
+Model CV/Model/HttpRespFail.lean (the code after the `fix:` commit "a response body iterator that raises after the
+head is sent aborts the connection"); `cutOk` is written on the RFC reader only.  Quantified over every request
+shape, every response (status, headers, close forced or not), every unsized / streamed body with any pieces
+(empty ones included), every failure point `k` (0 = before the first piece, beyond the last piece = when the
+iterator is asked for the end), every state of the connection and every sequence of further requests.
+`touched rq r` says that the body object is used at all: not HEAD / 1xx / 204 / 304, not a list. -/
+
+open CV.HttpResp in
+/-- **A failing body iterator ends the connection, and the peer is not deceived.**  The server closes, nothing
+follows the close, what was sent after the header block is - in the announced framing - a prefix of what the
+application produced (so there is no second status line inside the message), and a chunked message carries no
+last-chunk: the RFC reader cannot take the truncated body for a complete one. -/
+theorem failure_cut_is_visible (rq : Req) (r : Resp) (k : Nat) (h : touched rq r = true) :
+    cutOk (framing (prepare rq r)) (failBytes rq r k) (hasClose (respondFail rq r k)) false (producedOf r) = true := by
+  obtain ⟨ws, hws⟩ := respondFail_shape rq r k h
+  rw [hws, hasClose_writes_close]
+  exact cutOk_fail rq r k h
+
+example : touched ⟨false, true, true⟩ ⟨200, [], [], .stream [[1], [2]], false⟩ = true := by decide
+
+/-- **Exactly one status line, exactly one close, the close is last**: the acts of the failed response are the
+header block, the pieces handed out before the failure, and the close - no error response after the head. -/
+theorem failure_one_head_then_close (rq : Req) (r : Resp) (k : Nat) (h : touched rq r = true) :
+    ∃ ws : List Bytes, respondFail rq r k
+      = Act.write (renderHead rq.v11 r.status r.reason (headers r (prepare rq r))) :: (ws.map Act.write ++ [Act.close]) := by
+  obtain ⟨ws, hws⟩ := respondFail_shape rq r k h
+  cases ws with
+  | nil => simp [respondFail] at hws
+  | cons w ws =>
+    refine ⟨ws, ?_⟩
+    simp only [respondFail, List.map_cons, List.cons_append] at hws ⊢
+    injection hws with h1 h2
+    rw [h2]
+
+example : touched ⟨false, false, false⟩ ⟨200, [], [], .iter [[1]], false⟩ = true := by decide
+
+/-- **The per-connection entry is released and the connection is dead**: whatever was left in `_clients`, after the
+failed response the entry is gone, the connection counts as closed, and no further request on it is answered -
+never another response behind an unfinished message. -/
+theorem failure_releases_entry (c : Conn) (x : Req × Resp) (k : Nat) (xs : List ((Req × Resp) × Option Nat))
+    (hc : c.closed = false) (hs : c.stale = none) (h : touched x.1 x.2 = true) :
+    (serveMaybe c x (some k)).1 = { stale := none, closed := true }
+    ∧ runMaybe c ((x, some k) :: xs) = respondFail x.1 x.2 k := by
+  obtain ⟨ws, hws⟩ := respondFail_shape x.1 x.2 k h
+  have h1 : serveMaybe c x (some k) = ({ stale := none, closed := true }, respondFail x.1 x.2 k) := by
+    simp [serveMaybe, hc, hs, hws, hasClose_writes_close]
+  refine ⟨by rw [h1], ?_⟩
+  have hdead : ∀ (ys : List ((Req × Resp) × Option Nat)) (d : Conn), d.closed = true → runMaybe d ys = [] := by
+    intro ys
+    induction ys with
+    | nil => intro d _; rfl
+    | cons y ys ih =>
+      intro d hd
+      obtain ⟨y, ky⟩ := y
+      cases ky with
+      | none => simp [runMaybe, serveMaybe, serve, hd, ih d hd]
+      | some j => simp [runMaybe, serveMaybe, hd, ih d hd]
+  have hd := hdead xs { stale := none, closed := true } rfl
+  simp [runMaybe, h1, hd]
+
+example : (Conn.fresh).closed = false ∧ (Conn.fresh).stale = none := by decide
+
+/-- **Where nothing can fail nothing changes**: for HEAD, body-less statuses and list bodies the response is the
+ordinary one (covered by the theorems above), whatever the failure point. -/
+theorem failure_untouched (rq : Req) (r : Resp) (k : Nat) (h : touched rq r = false) :
+    respondFail rq r k = respond rq r :=
+  respondFail_untouched rq r k h
+
+example : touched ⟨true, true, true⟩ ⟨200, [], [], .stream [[1]], false⟩ = false := by decide
+
+/-- **A handler that returns `True` / `False` has taken the exchange over**: the HTTP component writes nothing and
+closes nothing for it (no status line of its own beside the handler's), and keeps the request / response pair. -/
+theorem flag_result_is_silent (c : Conn) (x : Req × Resp) :
+    (serveFlag c x).2 = [] ∧ (c.closed = false → (serveFlag c x).1.stale.isSome = true ∧ (serveFlag c x).1.closed = false) := by
+  unfold serveFlag
+  cases hc : c.closed <;> simp
 
 end CV.C15
